@@ -48,4 +48,17 @@ let handle (toks : Stdlib.String.t list) : Stdlib.String.t =
       let es = EDrop :: apps k (EBegin :: apps k []) in
       let (_, f') = run (fun b -> b) bytes_eqb (Conv.z_of_int 524288) [] toy_app Repaired ([], f) es in
       Conv.bool_str f'.f_cup
+  (* session_after <shrink|follow|drop|restart|pause|append|own> <bulk|tailing> : does the model's follower still
+     have its replication session after that event?  bulk = the event happens before anything of the stream has been
+     handled (initial bulk copy), tailing = after everything has been handled *)
+  | ["session_after"; ev; phase] ->
+      let r k = [Npos XH; Npos (Conv.pos_of_int k); Npos XH; Npos XH] in
+      let l = [r 7; r 8; r 9] in
+      let f = { f_file = []; f_mem = []; f_aofsz = Z0; f_cup = false; f_once = false; f_ses = None; f_broken = false } in
+      let pre = EConnect :: (if phase = "tailing" then [EDeliver; EDeliver; EDeliver] else [EDeliver]) in
+      let e = (match ev with
+        | "shrink" -> EShrink [r 9] | "follow" -> EFollow [r 5] | "drop" -> EDrop | "restart" -> ERestart
+        | "pause" -> EPause | "append" -> EAppend (r 4) | _ -> EOwn [Npos (XO XH); Npos (Conv.pos_of_int 7); Npos XH]) in
+      let (_, f') = run (fun b -> b) bytes_eqb (Conv.z_of_int 524288) [] toy_app Repaired (l, f) (pre @ [e]) in
+      (match f'.f_ses with None -> "none" | Some _ -> "some")
   | _ -> "?unknown"
